@@ -25,7 +25,8 @@ RULE = ("random programs of 50-500 API calls (by_path, ckd, generate_children, d
         "shared wallets (private, watch-only twin, watch-only at an exported account) with deliberate repeats, reversed "
         "orders, hardened/normal index twins (i and i+2^31) and reuse of returned children as subjects; the same programs run "
         "from 2-8 threads on the same objects under seeded LINE-level yield injection and a 1us switch interval; distinct = "
-        "distinct (monitor, case) digests plus distinct interleaving signatures")
+        "distinct (monitor, case) digests plus distinct interleaving signatures"
+        " EXTENSIONS: + related consecutive by_path requests, capacity scenarios (2^14+600 real, 2^19+600 private and 2^18+600 public in fast mode; thorough up to 2^21+600) with two held children and a running generator, deterministic single-preemption sweep")
 LEVEL_TEXT = ("Every event of every history is compared with a stateless recomputation from the root (reference model), so no "
               "result may depend on earlier calls, their order or multiplicity; concatenation, generator stepping, root-key "
               "immutability, per-node identity (icontract snapshot on ckd) and children-count conservation are checked; "
@@ -835,10 +836,19 @@ def judge_capacity(ctx, case):
                 if before[i][k] != e[k]:
                     bad.append(("before.%s" % k, e[k], before[i][k]))
         done = 0
-        while done < N and not bad:
-            chunk = min(4096, N - done)
-            parent.generate_children(interval=(100 + done, 100 + done + chunk))
-            done += chunk
+        import contextlib
+        import btc_hd_wallet.bip32 as _b32
+        # (fast mode for the long histories: the N derivations in between are made with a constant PRF and memoised ecdsa
+        #  calls - only their NUMBER matters here; the held children were derived, and are re-read, with the real ones)
+        with (inject.FastEC([_b32]) if case.get("fast") else contextlib.nullcontext()):
+            while done < N and not bad:
+                chunk = min(4096, N - done)
+                if case.get("how", "generate_children") == "generate_children" or (done // 4096) % 2 == 0:
+                    parent.generate_children(interval=(100 + done, 100 + done + chunk))
+                else:
+                    for i in range(100 + done, 100 + done + chunk):
+                        parent.ckd(index=i)
+                done += chunk
         after = {i: observe(n) for i, n in held.items()}
         for i in held:
             for k in before[i]:
@@ -855,7 +865,7 @@ def judge_capacity(ctx, case):
         bad.append(("raised", None, ex))
     ctx.extra["capacity_derivations_on_one_parent"] = max(ctx.extra.get("capacity_derivations_on_one_parent", 0), N)
     return ctx.judge("capacity", not bad, case, "held children unchanged after N more derivations on their parent", bad[:3],
-                     cls="capacity|%s|%s|n%d" % (kind, "test" if tn else "main", N), mech="C13.capacity." + (bad[0][0].split(".")[0].split("_after")[0] if bad else ""))
+                     cls="capacity|%s|%s|n%d|%s" % (kind, "test" if tn else "main", N, "fast" if case.get("fast") else "real"), mech="C13.capacity." + (bad[0][0].split(".")[0].split("_after")[0] if bad else ""))
 
 
 def run(ctx):
@@ -868,11 +878,13 @@ def run(ctx):
     finally:
         inst.remove()
     # capacity scenarios run WITHOUT the probes (tens of thousands of derivations; the judged values are read at the API)
-    caps = [("public", (1 << 14) + 600)] if not ctx.thorough else [("public", (1 << 14) + 600), ("private", (1 << 14) + 600), ("public", (1 << 16) + 600),
-                                                                 ("private", (1 << 16) + 600), ("public", (1 << 17) + 600)]
-    for ci, (kind, n) in enumerate(caps):
+    caps = [("public", (1 << 14) + 600, False), ("private", (1 << 19) + 600, True), ("public", (1 << 18) + 600, True)] if not ctx.thorough else \
+        [("public", (1 << 14) + 600, False), ("private", (1 << 14) + 600, False), ("public", (1 << 16) + 600, False), ("private", (1 << 16) + 600, False),
+         ("public", (1 << 17) + 600, False), ("private", (1 << 21) + 600, True), ("public", (1 << 20) + 600, True), ("private", (1 << 20) + 600, True)]
+    for ci, (kind, n, fast) in enumerate(caps):
         if ctx.mine_once(ci + 3):
-            judge_capacity(ctx, {"seed": gen.rbytes(ctx.rnd, 32), "testnet": bool(ci & 1), "kind": kind, "n": n})
+            judge_capacity(ctx, {"seed": gen.rbytes(ctx.rnd, 32), "testnet": bool(ci & 1), "kind": kind, "n": n, "fast": fast,
+                                 "how": ("generate_children", "mixed")[ci % 2]})
 
 
 def replay(ctx, monitor, case):
